@@ -251,7 +251,10 @@ func (f *File) Name() string                       { return f.f.Name() }
 func (f *File) Fd() uintptr                        { return f.f.Fd() }
 func (f *File) Stat() (FileInfo, error)            { return f.f.Stat() }
 func (f *File) Sync() error                        { return f.f.Sync() }
-func (f *File) Seek(o int64, w int) (int64, error) { return f.f.Seek(o, w) }
+func (f *File) Seek(o int64, w int) (int64, error) {
+	point("seek") // the file position is shared by everybody who uses this handle
+	return f.f.Seek(o, w)
+}
 func (f *File) Truncate(n int64) error {
 	point("truncate")
 	begin()
